@@ -394,7 +394,7 @@ def _dispatch(spec):
 def run(rep, tier):
     from vlib.core import Violation, VERIF
     from vlib.par import pmap, Crashed
-    specs = [("saenger", (0, 2)), ("saenger", (3, 9)), ("saenger", (10, 13)), ("saenger", (14, 17)), ("lists", ("bph-G", "fwd")), ("lists", ("bph-C", "fwd")), ("lists", ("bph-G3", "fwd")), ("lists", ("bph-A", "rev")), ("lists", ("GC", "fwd")),
+    specs = [("saenger", (0, 2)), ("saenger", (3, 9)), ("saenger", (10, 13)), ("saenger", (14, 17)), ("lists", ("bph-G", "fwd")), ("lists", ("bph-C", "fwd")), ("lists", ("bph-G3", "fwd")), ("lists", ("bph-A", "rev")), ("lists", ("br-first", "fwd")), ("lists", ("GC", "fwd")),
              ("lists", ("AU-rev", "rev")), ("lists", ("AG-sugar", "fwd")),
              ("stack3", ((0, 1, 2), None)), ("stack3", ((2, 0, 1), None)), ("stack3", ((1, 0, 2), 1)), ("stack3", ((0, 1, 2), 0)),
              ("stack3", ((1, 0, 2), "icode")), ("stack3", ((2, 1, 0), "icode"))]
